@@ -21,6 +21,7 @@ def check(tier, seed):
         C.audit_sources()
         C.props_obligations(res, 'C13gen', wd)
         C.tie_b_kernels(res, wd, ('cfgkeys',))
+        C.tie_b_cfgobj(res, wd)
         gen_lines = list(res.assumption_lines)
         tb = C.tie_b(res, wd)
         if tb:
